@@ -6,6 +6,7 @@ import (
 	"encoding/json"
 	"fmt"
 	"hash/fnv"
+	"image/png"
 	"io"
 	"math/rand"
 	"net"
@@ -21,10 +22,12 @@ import (
 	"sync"
 	"time"
 
+	"github.com/pquerna/otp"
 	"github.com/volatiletech/authboss/v3"
 	"github.com/volatiletech/authboss/v3/confirm"
 	"github.com/volatiletech/authboss/v3/defaults"
 	"github.com/volatiletech/authboss/v3/lock"
+	"github.com/volatiletech/authboss/v3/otp/twofactor/totp2fa"
 	"github.com/volatiletech/authboss/v3/remember"
 	"verif/sim"
 	"verif/world"
@@ -182,6 +185,7 @@ func newC20Server(seed int64, useSMTP bool, jitterOn bool, jsonMode bool) (*c20s
 	ab.Config.Modules.MailNoGoroutine = false // the library's own mail goroutines run
 	ab.Config.Modules.RecoverLoginAfterRecovery = false
 	ab.Config.Modules.LogoutMethod = "DELETE"
+	ab.Config.Modules.TOTP2FAIssuer = "verif"
 	ab.Config.Storage.Server = s.store
 	ab.Config.Storage.SessionState = s.sess
 	ab.Config.Storage.CookieState = &world.CookieStore{}
@@ -207,6 +211,9 @@ func newC20Server(seed int64, useSMTP bool, jitterOn bool, jsonMode bool) (*c20s
 		ab.Config.Core.Mailer = defaults.NewLogMailer(s.mails)
 	}
 	if err := ab.Init("auth", "confirm", "lock", "logout", "otp", "recover", "register", "remember"); err != nil {
+		return nil, err
+	}
+	if err := (&totp2fa.TOTP{Authboss: ab}).Setup(); err != nil {
 		return nil, err
 	}
 	probe := http.HandlerFunc(func(w http.ResponseWriter, r *http.Request) {
@@ -336,6 +343,37 @@ func (c *c20client) step(name, method, path string, form url.Values) (int, strin
 	return st, body
 }
 
+// qrMatches reports whether body is a PNG whose pixels equal the QR code of the otpauth URL the
+// library builds for (email, secret) — rendered independently with the same barcode library.
+func qrMatches(body, email, secret string) bool {
+	if secret == "" {
+		return false
+	}
+	got, err := png.Decode(strings.NewReader(body))
+	if err != nil {
+		return false
+	}
+	key, err := otp.NewKeyFromURL(fmt.Sprintf("otpauth://totp/%s:%s?issuer=%s&secret=%s", url.PathEscape("verif"), url.PathEscape(email), url.QueryEscape("verif"), url.QueryEscape(secret)))
+	if err != nil {
+		return false
+	}
+	want, err := key.Image(200, 200)
+	if err != nil || got.Bounds() != want.Bounds() {
+		return false
+	}
+	b := want.Bounds()
+	for y := b.Min.Y; y < b.Max.Y; y++ {
+		for x := b.Min.X; x < b.Max.X; x++ {
+			r1, g1, b1, _ := got.At(x, y).RGBA()
+			r2, g2, b2, _ := want.At(x, y).RGBA()
+			if r1 != r2 || g1 != g2 || b1 != b2 {
+				return false
+			}
+		}
+	}
+	return true
+}
+
 var reMailURL = regexp.MustCompile(`http://site\.test/auth/(confirm\?cnf|recover/end\?token)=([A-Za-z0-9_%=-]+)`)
 
 // waitMail polls the outbox for a mail to this client carrying a link of the wanted kind.
@@ -380,6 +418,18 @@ func (c *c20client) run() {
 	c.step("login-wrong", "POST", "/auth/login", url.Values{"email": {c.pid}, "password": {"wrong"}})
 	c.step("login", "POST", "/auth/login", url.Values{"email": {c.pid}, "password": {pw}, "rm": {"true"}})
 	c.step("protected", "GET", "/protected", nil)
+	// start a TOTP enrolment and fetch the QR code a few times: the image must encode THIS
+	// session's secret however many other clients are fetching theirs
+	c.step("totp-setup", "POST", "/auth/2fa/totp/setup", nil)
+	for i := 0; i < 4; i++ {
+		st, png, h := c.do("GET", "/auth/2fa/totp/qr", nil)
+		ct := ""
+		if h != nil {
+			ct = h.Get("Content-Type")
+		}
+		secret := c.srv.sess.BySid(c.jar[world.SidCookie])["totp_secret"]
+		c.tr = append(c.tr, fmt.Sprintf("totp-qr: %d ct=%s image-encodes-own-secret=%v", st, ct, qrMatches(png, c.pid, secret)))
+	}
 	_, body := c.step("otp-add", "POST", "/auth/otp/add", nil)
 	var m map[string]interface{}
 	json.Unmarshal([]byte(body), &m)
@@ -407,6 +457,7 @@ var (
 	reTS    = regexp.MustCompile(`\d{4}-\d\d-\d\dT\d\d:\d\d:\d\d(\.\d+)?Z`)
 	reSid   = regexp.MustCompile(`S\d+-\d+`)
 	rePwNum = regexp.MustCompile(`pass\d+`)
+	reB32   = regexp.MustCompile(`\b[A-Z2-7]{32}\b`)
 )
 
 // canon makes a transcript comparable across clients and runs: the client's identifier, random
@@ -421,6 +472,7 @@ func canon(tr []string, pid string) []string {
 		l = reOTP.ReplaceAllString(l, "<otp>")
 		l = reTS.ReplaceAllString(l, "<ts>")
 		l = reSid.ReplaceAllString(l, "<sid>")
+		l = reB32.ReplaceAllString(l, "<totp-secret>")
 		l = reB64.ReplaceAllStringFunc(l, func(t string) string {
 			if _, ok := idx[t]; !ok {
 				idx[t] = len(idx)
@@ -661,7 +713,7 @@ func C20RaceReports(scratch string) (lib []string, harnessOnly int, total int) {
 func init() {
 	register(&Check{
 		ID: "C20", Level: "exploration",
-		Rule:  "-race build. One initialised instance behind a real net/http server on loopback, shipped defaults everywhere (router, body reader, responder, redirector, error handler, defaults.Logger on a locked writer, defaults.LogMailer on a locked writer in even units and defaults.SMTPMailer talking to an in-process fake SMTP server in odd units), MailNoGoroutine=false so the library's own mail goroutines run. 4/16/48 clients, each with its own account and cookie jar, run the script register → login-unconfirmed → confirm (token read from the mail) → wrong login → login(rm) → protected → otp add → logout → otp login → otp replay → logout → recover start → recover end (token from the mail) → old password → new password(rm) → remember re-auth → protected → logout → protected, concurrently (form mode in half of the units, JSON/API mode — JSON bodies in, JSON 'redirects' out — in the other half), with seeded yields/µs-sleeps injected at every storer and session-store operation and at SMTP accept. Oracles: (1) zero race-detector reports with a frame in github.com/volatiletech/authboss/v3 (GORACE halt_on_error=0 log_path, blocks counted from the logs, deduplicated by the innermost library frame pair); a report without a library frame makes the run inconclusive; (2) every client's transcript (status, Location, content type, body, its server-side session, jar keys, its token-row count, its own storage row after every step; identifiers/tokens/hashes/timestamps canonicalised) equals the transcript of the same script run alone against a fresh instance; (3) 8 anonymous clients x 120 requests refused concurrently by ONE redirect-mode access middleware must each be sent to the login page with their own path and query; (4) the C11 handler programs run in 8 goroutines concurrently. distinct_nontrivial = distinct interleaving signatures (hash of the global order of storer operations by account).",
+		Rule:  "-race build. One initialised instance behind a real net/http server on loopback, shipped defaults everywhere (router, body reader, responder, redirector, error handler, defaults.Logger on a locked writer, defaults.LogMailer on a locked writer in even units and defaults.SMTPMailer talking to an in-process fake SMTP server in odd units), MailNoGoroutine=false so the library's own mail goroutines run. 4/16/48 clients, each with its own account and cookie jar, run the script register → login-unconfirmed → confirm (token read from the mail) → wrong login → login(rm) → protected → TOTP setup + 4x QR image (pixels must encode this session's own secret) → otp add → logout → otp login → otp replay → logout → recover start → recover end (token from the mail) → old password → new password(rm) → remember re-auth → protected → logout → protected, concurrently (form mode in half of the units, JSON/API mode — JSON bodies in, JSON 'redirects' out — in the other half), with seeded yields/µs-sleeps injected at every storer and session-store operation and at SMTP accept. Oracles: (1) zero race-detector reports with a frame in github.com/volatiletech/authboss/v3 (GORACE halt_on_error=0 log_path, blocks counted from the logs, deduplicated by the innermost library frame pair); a report without a library frame makes the run inconclusive; (2) every client's transcript (status, Location, content type, body, its server-side session, jar keys, its token-row count, its own storage row after every step; identifiers/tokens/hashes/timestamps canonicalised) equals the transcript of the same script run alone against a fresh instance; (3) 8 anonymous clients x 120 requests refused concurrently by ONE redirect-mode access middleware must each be sent to the login page with their own path and query; (4) the C11 handler programs run in 8 goroutines concurrently. distinct_nontrivial = distinct interleaving signatures (hash of the global order of storer operations by account).",
 		Units: func(t string) int { return tierN(t, 12, 120) },
 		Run:   c20Unit,
 		Floors: func(t string) map[string]int {
